@@ -5,12 +5,26 @@ below steer themselves with a tiny ideal simulation (length, sortedness) ONLY to
 values around the current length and to respect the documented preconditions; the verdict
 always comes from the extracted Coq spec (driver/cont_main.ml) and, for vectors, additionally
 from the model-independent multiset oracle `vector_oracle`.
+
+Strata (all boundary-directed, see the `*_sized`, `*_far`, `*_second_use` functions below):
+  random histories            short histories over a 4-letter alphabet, now also with own-object arguments
+                              (`*_own*`, `set_pair`), far index values and a `fork` (dup, then keep using the COPY
+                              while the original is read back too) / `swap`
+  bounded-exhaustive          all sequences of a small symbolic alphabet (per interface), a second alphabet holds the
+                              composites (own-object arguments, fork, swap)
+  sized                       containers of 31..33, 63..65, 127..129, 255..257 (thorough: ..1025) elements built with
+                              quiet (`~`) steps, then every operation at the positions first / second / quarter /
+                              middle +-1 / last-1 / last and with absent keys below, between and above
+  far index                   insert_at / get / remove_at at every power of two and its neighbours (up to 1025, thorough
+                              2049) on lists of 0, 1, 3, idx/2 and idx-2 elements
 """
-import itertools, os, re
+import itertools, os, re, time
 import vlib
 
 CLASSES = ['array', 'linked_list', 'dlinked_list']
 KEYS4 = ['a', 'b', 'c', 'd']
+# keys that are prefixes of each other: the order depends on the length too
+KEYS_PREFIX = ['a', 'aa', 'ab', 'b', 'ba', 'aaa']
 
 
 # ---------------------------------------------------------------------------------------------
@@ -42,7 +56,7 @@ def op_histogram(cases):
         if len(t) != 3:
             continue
         for op in t[2].split(';'):
-            k = t[0] + '.' + op.split(':', 1)[0]
+            k = t[0] + '.' + op.lstrip('~').split(':', 1)[0]
             h[k] = h.get(k, 0) + 1
     return h
 
@@ -93,6 +107,76 @@ class ContCheck(vlib.PropertyCheck):
         return extra
 
 
+# ---------------------------------------------------------------------------------------------
+# stage-2 ties: cost control
+# ---------------------------------------------------------------------------------------------
+# The pointer-level class models keep their node store / item block as a Coq list, so one memory access
+# costs O(n) and a full read-back of an n-element container O(n^2)..O(n^3).  Containers above these sizes
+# are therefore checked against the ideal object only (stage 1, level A); the class ties take the rest.
+TIE_LIMIT = {('list', 'array'): 1100}
+TIE_LIMIT_DEFAULT = 300
+_FAR_RE = re.compile(r'insert_at:(-?\d+):')
+
+
+def tie_affordable(case):
+    t = case.split(' ')
+    if len(t) != 3:
+        return True
+    lim = TIE_LIMIT.get((t[0], t[1]), TIE_LIMIT_DEFAULT)
+    if t[2].count(';') + 1 > lim + 40:
+        return False
+    if t[0] == 'list' and 'insert_at' in t[2]:
+        size = t[2].count(';') + 1
+        for m in _FAR_RE.finditer(t[2]):
+            size = max(size, abs(int(m.group(1))))
+        return size <= lim
+    return True
+
+
+def run_model_sliced(exe, cases, work, tag, nslices=8, timeout=1500):
+    """vlib.run_model over `nslices` round-robin slices of the case list in parallel processes (the slow
+    histories sit together at the end of the list); returns the outputs in case order"""
+    import subprocess
+    n = len(cases)
+    nslices = max(1, min(nslices, n // 200 + 1))
+    paths, procs = [], []
+    env = dict(os.environ, OCAMLRUNPARAM='l=512M')
+    for k in range(nslices):
+        path = os.path.join(work, 'cases-%s-%d-slice%d.txt' % (tag, os.getpid(), k))
+        with open(path, 'w') as f:
+            for c in cases[k::nslices]:
+                f.write(c + '\n')
+        paths.append(path)
+        # output to a file each: with pipes the slices would wait for their reader one after the other
+        of = open(path + '.out', 'wb')
+        procs.append((subprocess.Popen([exe, path], stdout=of, stderr=subprocess.DEVNULL, env=env), of))
+    outs = [None] * n
+    try:
+        t_end = time.time() + timeout
+        for k, (pr, of) in enumerate(procs):
+            try:
+                pr.wait(timeout=max(1, t_end - time.time()))
+            except subprocess.TimeoutExpired:
+                pr.kill()
+                pr.wait()
+            of.close()
+            with open(paths[k] + '.out', 'rb') as f:
+                for line in f.read().decode(errors='replace').split('\n'):
+                    if line.startswith('#'):
+                        sp = line.find(' ')
+                        j = int(line[1:sp]) * nslices + k
+                        if j < n:
+                            outs[j] = line[sp + 1:]
+    finally:
+        for path in paths:
+            for q in (path, path + '.out'):
+                try:
+                    os.remove(q)
+                except OSError:
+                    pass
+    return outs
+
+
 def all_classes(iface, ops):
     s = ';'.join(ops)
     return ['%s %s %s' % (iface, c, s) for c in CLASSES]
@@ -102,9 +186,10 @@ def all_classes(iface, ops):
 # list histories
 # ---------------------------------------------------------------------------------------------
 class ListSim:
-    """ideal sequence of keys / None, only to steer the generator"""
+    """ideal sequence of keys / None, only to steer the generator (`other` = the second container after fork)"""
     def __init__(self):
         self.xs = []
+        self.other = None
 
     def sorted_plain(self):
         return all(x is not None for x in self.xs) and all(self.xs[i] <= self.xs[i + 1] for i in range(len(self.xs) - 1))
@@ -116,7 +201,7 @@ class ListSim:
         return i + len(self.xs) if i < 0 else i
 
     def apply(self, op):
-        a = op.split(':')
+        a = op.lstrip('~').split(':')
         xs = self.xs
         if a[0] == 'append':
             xs.append(a[1])
@@ -136,19 +221,67 @@ class ListSim:
         elif a[0] == 'remove':
             if a[1] in xs:
                 xs.remove(a[1])
+        elif a[0] == 'remove_own':
+            i = self.norm(int(a[1]))
+            if 0 <= i < len(xs) and xs[i] is not None:
+                xs.remove(xs[i])
         elif a[0] == 'remove_at':
             i = self.norm(int(a[1]))
             if 0 <= i < len(xs):
                 del xs[i]
         elif a[0] == 'reverse':
             xs.reverse()
+        elif a[0] == 'fork':
+            if self.other is None:
+                self.other = list(xs)
+        elif a[0] == 'swap':
+            if self.other is not None:
+                self.xs, self.other = self.other, self.xs
 
 
-def list_random_op(sim, rng, keys, allow_dup=True):
+# index / length / count boundary values: every power of two and its neighbours
+def pow2_neighbours(maxexp, minexp=1):
+    out = []
+    for e in range(minexp, maxexp + 1):
+        for d in (-1, 0, 1):
+            v = (1 << e) + d
+            if v > 0 and v not in out:
+                out.append(v)
+    return out
+
+
+SIZES_QUICK = [31, 32, 33, 63, 64, 65, 127, 128, 129, 255, 256, 257]
+SIZES_THOROUGH = SIZES_QUICK + [511, 512, 513, 1023, 1024, 1025]
+
+
+def kn(i):
+    """fixed-width three-letter key whose order is the order of i (0 <= i < 17576)"""
+    return chr(97 + (i // 676) % 26) + chr(97 + (i // 26) % 26) + chr(97 + i % 26)
+
+
+def positions(n):
+    """first, second, quarter, middle -1/0/+1, three quarters, last but one, last"""
+    out = []
+    for p in (0, 1, n // 4, n // 2 - 1, n // 2, n // 2 + 1, (3 * n) // 4, n - 2, n - 1):
+        if 0 <= p < n and p not in out:
+            out.append(p)
+    return out
+
+
+FAR = pow2_neighbours(7, 5)          # 31..33, 63..65, 127..129: far index values inside random histories
+
+
+def list_random_op(sim, rng, keys, allow_dup=True, composites=True):
     n = len(sim.xs)
     k = rng.choice(keys)
     idx = rng.randint(-n - 2, n + 2)
+    if rng.random() < 0.03:
+        # far beyond either end (insert_at pads with NULL placeholders; get / remove_at refuse)
+        idx = rng.choice(FAR) * rng.choice((1, 1, -1))
     r = rng.random()
+    if composites and r < 0.06:
+        # the list is handed back an object it stores itself
+        return '%s:%d' % (rng.choice(('remove_own', 'remove_own', 'index_own', 'find_own', 'contains_own')), rng.randint(-n - 1, n))
     if r < 0.14:
         return 'append:' + k
     if r < 0.22:
@@ -180,17 +313,40 @@ def list_random_op(sim, rng, keys, allow_dup=True):
     return 'dup' if allow_dup else 'count'
 
 
+def with_second_use(ops, rng, p_fork=0.3):
+    """put one `fork` (dup; the COPY is used from then on, the original is still read back) at a random
+    place of a history and a few `swap`s behind it"""
+    if len(ops) < 2 or rng.random() >= p_fork:
+        return ops
+    at = rng.randint(0, len(ops) - 1)
+    out = ops[:at] + ['fork']
+    for o in ops[at:]:
+        if rng.random() < 0.15:
+            out.append('swap')
+        out.append(o)
+    return out
+
+
 def list_history(rng, maxops=25, keys=KEYS4):
     sim = ListSim()
     ops = []
     nops = rng.randint(1, maxops)
+    forked = rng.random() < 0.3
     # some histories start with a run of appends so that longer lists are reached
     if rng.random() < 0.4:
         for _ in range(rng.randint(1, 6)):
             ops.append('append:' + rng.choice(keys))
             sim.apply(ops[-1])
+    fork_at = rng.randint(0, nops) if forked else -1
+    done_fork = False
     while len(ops) < nops:
-        op = list_random_op(sim, rng, keys)
+        if forked and not done_fork and len(ops) >= fork_at:
+            op = 'fork'
+            done_fork = True
+        elif done_fork and rng.random() < 0.12:
+            op = 'swap'
+        else:
+            op = list_random_op(sim, rng, keys)
         ops.append(op)
         sim.apply(op)
     return ops[:max(1, nops)]
@@ -207,17 +363,95 @@ LIST_SYMBOLS = [
 ]
 
 
+# second alphabet: the composites (own-object arguments, second use of a copy)
+LIST_SYMBOLS2 = [
+    lambda s: 'append:a', lambda s: 'prepend:b', lambda s: 'insert_at:%d:a' % (len(s.xs) + 1),
+    lambda s: 'insert_at:%d:b' % (len(s.xs) // 2), lambda s: 'remove_at:0', lambda s: 'remove_at:-1', lambda s: 'remove:a',
+    lambda s: 'reverse', lambda s: 'remove_own:0', lambda s: 'remove_own:-1', lambda s: 'index_own:-1',
+    lambda s: 'find_own:%d' % (len(s.xs) // 2), lambda s: 'contains_own:0',
+    lambda s: 'fork', lambda s: 'swap',
+]
+
+
 def list_exhaustive(depth, symbols=LIST_SYMBOLS):
     """all sequences of exactly `depth` symbols (their prefixes are checked step by step)"""
     out = []
     for seq in itertools.product(range(len(symbols)), repeat=depth):
         sim = ListSim()
         ops = []
+        nfork = 0
         for j in seq:
             op = symbols[j](sim)
+            if op == 'fork':
+                nfork += 1
             ops.append(op)
             sim.apply(op)
-        out.append(ops)
+        if nfork <= 1:
+            out.append(ops)
+    return out
+
+
+def list_second_use():
+    """dup, then keep using the COPY (and, after `swap`, the original) while both are read back: every
+    list of 0..3 elements (and one with a placeholder), every pair of following operations"""
+    prefixes = [[], ['append:a'], ['append:a', 'append:b'], ['append:b', 'append:a', 'append:b'], ['insert_at:1:a'],
+                ['append:a', 'append:b', 'append:c', 'append:d', 'append:e']]
+    syms = [lambda s: 'append:c', lambda s: 'prepend:c', lambda s: 'insert_at:%d:c' % len(s.xs), lambda s: 'insert_at:%d:c' % (len(s.xs) + 1),
+            lambda s: 'insert_at:%d:c' % max(len(s.xs) - 1, 0), lambda s: 'insert_at:1:c', lambda s: 'remove_at:0', lambda s: 'remove_at:-1',
+            lambda s: 'remove:a', lambda s: 'remove:b', lambda s: 'remove_own:0', lambda s: 'remove_own:-1', lambda s: 'reverse', lambda s: 'dup',
+            lambda s: 'swap']
+    out = []
+    for pre in prefixes:
+        for i in range(len(syms)):
+            for j in range(len(syms)):
+                sim = ListSim()
+                ops = []
+                for o in pre + ['fork']:
+                    ops.append(o)
+                    sim.apply(o)
+                for f in (syms[i], syms[j]):
+                    o = f(sim)
+                    ops.append(o)
+                    sim.apply(o)
+                out.append(ops)
+    return out
+
+
+def list_far_index(maxexp, minexp=1):
+    """insert_at / get / remove_at at every power of two and its neighbours, on lists of 0, 1, 3, idx/2 and idx-2
+    elements: the sequence grows by NULL placeholders across every allocation-block boundary"""
+    out = []
+    for t in pow2_neighbours(maxexp, minexp):
+        for b in sorted(set([0, 1, 3, t // 2, t - 2])):
+            if b < 0 or b >= t:
+                continue
+            build = ['~append:' + KEYS4[i % 4] for i in range(b)]
+            out.append(build + ['insert_at:%d:z' % t, '~append:y', '~remove_at:%d' % (t // 2), 'remove_at:-1'])
+    for t in pow2_neighbours(maxexp, max(5, minexp)):
+        out.append(['~append:a', '~append:b', 'insert_at:%d:z' % -t, 'get:%d' % t, 'get:%d' % -t, 'remove_at:%d' % t, 'remove_at:%d' % -t])
+    return out
+
+
+def list_sized(sizes, rng):
+    """lists of n real elements (built with quiet steps in three ways), then one operation at each boundary
+    position, read back in full"""
+    out = []
+    for n in sizes:
+        builds = [['~append:' + KEYS4[(i * 7) % 4] for i in range(n)],
+                  ['~prepend:' + KEYS4[(i * 5) % 4] for i in range(n)],
+                  ['~insert_at:%d:%s' % (i // 2, KEYS4[i % 4]) for i in range(n)]]
+        pos = positions(n)
+        probes = ['append:z', 'prepend:z', 'insert_at:%d:z' % n, 'insert_at:%d:z' % (n + 1), 'insert_at:-1:z', 'insert_at:%d:z' % -n,
+                  'reverse', 'dup', 'fork;append:z', 'fork;remove_at:-1;swap;remove_at:0', 'remove:a', 'remove:d', 'index:c', 'get:%d' % n,
+                  'remove_at:%d' % n, 'remove_at:%d' % -n, 'remove_at:%d' % (-n - 1), 'to_array', 'iterate']
+        for q in pos:
+            probes += ['insert_at:%d:z' % q, 'remove_at:%d' % q, 'remove_own:%d' % q, 'index_own:%d' % q]
+        for k, pr in enumerate(probes):
+            out.append(builds[k % 3] + pr.split(';'))
+        # the sorted insert on a long ascending list (head key differs from the new key)
+        asc = ['~append:' + kn(2 * i + 2) for i in range(n)]
+        for q in pos[1:] + [n]:
+            out.append(asc + ['insert:' + kn(2 * q + 1)])
     return out
 
 
@@ -234,19 +468,59 @@ def vector_history(rng, maxops=25, keys=KEYS4):
         if r < 0.35 + 0.3 * bias:
             ops.append('insert:' + k)
         elif r < 0.65 + 0.1 * bias:
-            ops.append('remove:' + k)
+            ops.append(('remove:' if rng.random() < 0.8 else 'remove_own:') + k)
         elif r < 0.85:
-            ops.append('find:' + k)
+            ops.append(('find:' if rng.random() < 0.85 else 'find_own:') + k)
         elif r < 0.93:
-            ops.append('contains:' + k)
+            ops.append(('contains:' if rng.random() < 0.85 else 'contains_own:') + k)
         else:
             ops.append(rng.choice(['count', 'iterate', 'to_array']))
-    return ops
+    return with_second_use(ops, rng, 0.25)
 
 
 def vector_exhaustive(depth, keys=('a', 'b')):
     syms = [o + ':' + k for o in ('insert', 'remove', 'find') for k in keys]
     return [list(s) for s in itertools.product(syms, repeat=depth)]
+
+
+VECTOR_SYMBOLS2 = ['insert:a', 'insert:b', 'insert:c', 'remove:a', 'remove:b', 'find:b', 'remove_own:a', 'remove_own:b', 'find_own:a',
+                   'contains_own:b', 'fork', 'swap']
+
+
+def vector_exhaustive2(depth, symbols=VECTOR_SYMBOLS2):
+    return [list(s) for s in itertools.product(symbols, repeat=depth) if s.count('fork') <= 1]
+
+
+def vector_sized(sizes, rng):
+    """vectors of n elements with distinct keys (even codes; odd codes lie between) built with quiet steps in
+    ascending, descending and shuffled order, then one operation per boundary position: a duplicate of the key
+    there, a new key just below it, probes for it and for absent keys - read back in full (order, multiset)"""
+    out = []
+    for n in sizes:
+        codes = [2 * i + 2 for i in range(n)]
+        orders = [list(codes), list(reversed(codes)), list(codes)]
+        rng.shuffle(orders[2])
+        builds = [['~insert:' + kn(c) for c in o] for o in orders]
+        pos = positions(n)
+        probes = []
+        for q in pos:
+            here, below = kn(2 * q + 2), kn(2 * q + 1)
+            probes += ['insert:' + here, 'insert:%s;insert:%s;remove:%s' % (here, here, here), 'insert:' + below, 'remove:' + here, 'find:' + here,
+                       'contains:' + here, 'remove_own:' + here, 'find_own:' + here, 'remove:' + below, 'find:' + below]
+        top = kn(2 * n + 3)
+        probes += ['insert:' + top, 'remove:' + top, 'find:' + top, 'contains:' + top, 'insert:' + kn(0), 'find:' + kn(0),
+                   'fork;insert:%s;swap;remove:%s' % (kn(2), kn(2 * n)), 'iterate', 'to_array', 'count']
+        for k, pr in enumerate(probes):
+            out.append(builds[k % 3] + pr.split(';'))
+        # many equal keys: n inserts over n/4 keys, then a short random tail that is read back
+        few = [kn(2 * i + 2) for i in range(max(2, n // 4))]
+        for _ in range(3):
+            tail = []
+            for _ in range(12):
+                k = rng.choice(few)
+                tail.append(rng.choice(['insert:', 'insert:', 'remove:', 'remove:', 'find:', 'contains:', 'remove_own:']) + k)
+            out.append(['~insert:' + rng.choice(few) for _ in range(n)] + tail)
+    return out
 
 
 def _elist(s):
@@ -257,23 +531,39 @@ def _elist(s):
     return [] if s == '' else s.split(',')
 
 
+def _vec_rb_check(n, f, live, what):
+    if len(f) != 4:
+        return 'step %d: malformed read-back of %s: %s' % (n, what, ' '.join(f))
+    if f[0] != 'n=%d' % len(live):
+        return 'step %d: %s %s, %d stored' % (n, what, f[0], len(live))
+    for fld in (f[1], f[2]):
+        if _elist(fld[2:]) != sorted(live):
+            return 'step %d: %s %s, stored (ascending) %s' % (n, what, fld[:200], sorted(live)[:60])
+    if f[3] != 'm=ok':
+        return 'step %d: %s %s (a stored object is missing from or repeated in the sweep)' % (n, what, f[3])
+    return None
+
+
 def vector_oracle(case, iout):
     """The multiset discipline, evaluated on the implementation's own output without the model
     (vector elements are printed by key text, '?' = not an object the vector stores, m=ok = every
     stored object shown exactly once): iteration and to_array are ascending and hold exactly the
-    inserted-and-not-removed keys; find/contains answer iff present; remove takes exactly one."""
+    inserted-and-not-removed keys; find/contains answer iff present; remove takes exactly one.
+    After `fork` the same holds for the copy and for the original, each with its own multiset."""
     t = case.split(' ')
     if len(t) != 3 or t[0] != 'vector' or iout is None or iout.startswith('FAULT'):
         return None
     ops = t[2].split(';')
     steps = split_ab(iout)[0].split(' ; ')
-    live = []          # multiset of key texts
+    live = []          # multiset of key texts of the current container
+    other = None       # ... of the other one after fork
     for n, op in enumerate(ops):
         if n >= len(steps) or steps[n] == 'end':
             return 'step %d missing' % n
+        quiet = op.startswith('~')
+        if quiet:
+            op = op[1:]
         f = steps[n].split(' ')
-        if len(f) != 5:
-            return 'step %d malformed: %s' % (n, steps[n])
         ret = f[0]
         a = op.split(':')
         K = a[1] if len(a) == 2 else None
@@ -284,25 +574,42 @@ def vector_oracle(case, iout):
             live.append(K)
         elif a[0] in ('remove', 'find'):
             if ret != (K if present else '_'):
-                return 'step %d: %s(%s) returned %s, stored %s' % (n, a[0], K, ret, sorted(live))
+                return 'step %d: %s(%s) returned %s, stored %s' % (n, a[0], K, ret, sorted(live)[:60])
             if a[0] == 'remove' and present:
                 live.remove(K)
         elif a[0] == 'contains':
             if ret != ('T' if present else 'F'):
                 return 'step %d: contains(%s) = %s' % (n, K, ret)
+        elif a[0] in ('remove_own', 'find_own', 'contains_own'):
+            want = '_/-' if not present else (K + '/' + ('T' if a[0] == 'contains_own' else K))
+            if ret != want:
+                return 'step %d: %s(%s) returned %s, stored %s' % (n, a[0], K, ret, sorted(live)[:60])
+            if a[0] == 'remove_own' and present:
+                live.remove(K)
         elif a[0] == 'count':
             if ret != str(len(live)):
                 return 'step %d: count = %s, %d stored' % (n, ret, len(live))
         elif a[0] in ('iterate', 'to_array'):
             if _elist(ret) != sorted(live):
-                return 'step %d: %s = %s, stored %s' % (n, a[0], ret, sorted(live))
-        if f[1] != 'n=%d' % len(live):
-            return 'step %d: %s, %d stored' % (n, f[1], len(live))
-        for fld in (f[2], f[3]):
-            if _elist(fld[2:]) != sorted(live):
-                return 'step %d: %s, stored (ascending) %s' % (n, fld, sorted(live))
-        if f[4] != 'm=ok':
-            return 'step %d: %s (a stored object is missing from or repeated in the sweep)' % (n, f[4])
+                return 'step %d: %s = %s, stored %s' % (n, a[0], ret[:200], sorted(live)[:60])
+        elif a[0] == 'fork':
+            if other is not None or ret != 'T':
+                return None if other is not None else 'step %d: dup returned %s' % (n, ret)
+            other = list(live)
+        elif a[0] == 'swap':
+            if other is not None:
+                live, other = other, live
+        if quiet:
+            if len(f) != 1:
+                return 'step %d malformed: %s' % (n, steps[n][:200])
+            continue
+        if len(f) != (5 if other is None else 10):
+            return 'step %d malformed: %s' % (n, steps[n][:200])
+        msg = _vec_rb_check(n, f[1:5], live, 'vector:')
+        if msg is None and other is not None:
+            msg = ('step %d malformed: %s' % (n, steps[n][:200])) if f[5] != 'O' else _vec_rb_check(n, f[6:10], other, 'other vector:')
+        if msg:
+            return msg
     return None
 
 
@@ -312,6 +619,9 @@ def vector_oracle(case, iout):
 VALS = ['x', 'y', 'z', 'w']
 
 
+OWN_MAP_OPS = ['set_own', 'set_own', 'set_ownpair', 'has_value_own', 'get_ownkey', 'remove_ownkey']
+
+
 def map_history(rng, maxops=25, keys=KEYS4):
     nops = rng.randint(1, maxops)
     ops = []
@@ -319,7 +629,7 @@ def map_history(rng, maxops=25, keys=KEYS4):
     for _ in range(nops):
         k = rng.choice(keys)
         r = rng.random()
-        if r < 0.34:
+        if r < 0.30:
             ops.append('set:%s:%s' % (k, rng.choice(VALS)))
             have.add(k)
             # caller changes / deletes its own objects right after the set
@@ -332,26 +642,69 @@ def map_history(rng, maxops=25, keys=KEYS4):
                 ops.append('delk')
             if 0.45 < q < 0.6:
                 ops.append('delv')
-        elif r < 0.56:
+        elif r < 0.34:
+            # pair form of set with a pair of the caller's
+            ops.append('set_pair:%s:%s' % (k, rng.choice(VALS)))
+            have.add(k)
+        elif r < 0.44:
+            # the map is handed back an object it stores itself (value, key or whole pair), mostly for a present key
+            if have and rng.random() < 0.8:
+                k = rng.choice(sorted(have))
+            o = rng.choice(OWN_MAP_OPS + ['set_ownkey'])
+            ops.append('set_ownkey:%s:%s' % (k, rng.choice(VALS)) if o == 'set_ownkey' else '%s:%s' % (o, k))
+            if o == 'remove_ownkey':
+                have.discard(k)
+        elif r < 0.60:
             # removal, often of the smallest / largest key present
             if have and rng.random() < 0.6:
                 k = rng.choice([min(have), max(have)])
             ops.append('remove:' + k)
             have.discard(k)
-        elif r < 0.72:
+        elif r < 0.74:
             ops.append('get:' + k)
-        elif r < 0.80:
+        elif r < 0.81:
             ops.append('has_key:' + k)
         elif r < 0.88:
             ops.append('has_value:' + rng.choice(VALS))
         else:
-            ops.append(rng.choice(['count', 'get_keys', 'get_values', 'get_pairs', 'iterate', 'newpair']))
-    return ops[:max(nops, 1)]
+            ops.append(rng.choice(['count', 'get_keys', 'get_values', 'get_pairs', 'iterate', 'newpair',
+                                   rng.choice(['get_keys_into:', 'get_values_into:', 'get_pairs_into:']) + rng.choice('ALD')]))
+    return with_second_use(ops[:max(nops, 1)], rng, 0.25)
 
 
 MAP_SYMBOLS = ['set:a:x', 'set:a:y', 'set:b:x', 'set:c:z', 'remove:a', 'remove:b', 'remove:c', 'get:a', 'has_value:x',
                'mutk:c', 'delv']
+# second alphabet: the composites
+MAP_SYMBOLS2 = ['set:a:x', 'set:b:y', 'set_pair:a:w', 'set_pair:c:x', 'set_own:a', 'set_own:b', 'set_ownpair:a', 'set_ownkey:a:z',
+                'get_ownkey:b', 'remove_ownkey:a', 'has_value_own:b', 'remove:b', 'get_keys_into:A', 'get_pairs_into:L', 'fork', 'swap']
 
 
 def map_exhaustive(depth, symbols=MAP_SYMBOLS):
-    return [list(s) for s in itertools.product(symbols, repeat=depth)]
+    return [list(s) for s in itertools.product(symbols, repeat=depth) if s.count('fork') <= 1]
+
+
+def map_sized(sizes, rng, all_positions=True):
+    """maps of n distinct keys (even codes; odd codes lie between) built with quiet steps in ascending, descending
+    and shuffled order, then one operation per boundary position - plain, pair-form and own-object forms of set,
+    get, remove - and for absent keys below, between and above; read back in full"""
+    out = []
+    for n in sizes:
+        codes = [2 * i + 2 for i in range(n)]
+        orders = [list(codes), list(reversed(codes)), list(codes)]
+        rng.shuffle(orders[2])
+        builds = [['~set:%s:%s' % (kn(c), kn(c + 7000)) for c in o] for o in orders]
+        probes = []
+        pos = positions(n) if all_positions else sorted(set([0, 1, n // 2, n - 2, n - 1]))
+        for q in pos:
+            here, below = kn(2 * q + 2), kn(2 * q + 1)
+            probes += ['set:%s:new' % here, 'set_pair:%s:new' % here, 'set_own:' + here, 'set_ownpair:' + here, 'set_ownkey:%s:new' % here,
+                       'get:' + here, 'get_ownkey:' + here, 'remove:' + here, 'remove_ownkey:' + here, 'has_key:' + here,
+                       'has_value_own:' + here, 'set:%s:new' % below, 'set_pair:%s:new' % below, 'get:' + below, 'remove:' + below,
+                       'set_own:' + below]
+        top = kn(2 * n + 3)
+        probes += ['set:%s:new' % top, 'get:' + top, 'remove:' + top, 'set:%s:new' % kn(0), 'remove:' + kn(0), 'has_value:new',
+                   'has_value:' + kn(2 * n + 7000), 'fork;set:%s:new;swap;remove:%s' % (kn(2), kn(2 * n)), 'get_pairs', 'iterate',
+                   'get_keys_into:D', 'get_values_into:A', 'get_pairs_into:L']
+        for k, pr in enumerate(probes):
+            out.append(builds[k % 3] + pr.split(';'))
+    return out
